@@ -342,7 +342,7 @@ Fixpoint toy_write_vals (c : memcfg) (m : zmap) (a : Z) (vals : list str) (ln : 
   | [] => POk m
   | v :: t =>
       match toy_value v with
-      | None => PErr (PUncaught ln)
+      | None => PErr (PSyntax ln)            (* int() rejects the literal: ParserSyntaxException of its line *)
       | Some z =>
           match mem_write c m 16 a (U16 z) with
           | (m', None) => toy_write_vals c m' (a + 1) t ln
@@ -383,7 +383,7 @@ Fixpoint toy_instantiate (text : list (Z * tline)) (labels : zmap) : pres (list 
           let this :=
             if is_address_type op then
               match opnd with
-              | TAddrLit s => match toy_value s with Some z => POk (mk_tinstr op z) | None => PErr (PUncaught ln) end
+              | TAddrLit s => match toy_value s with Some z => POk (mk_tinstr op z) | None => PErr (PSyntax ln) end
               | TLabel l => match mget_opt labels l with Some z => POk (mk_tinstr op z) | None => PErr (PLabel ln) end
               | TNoOperand => PErr (PUncaught ln)
               end
